@@ -201,7 +201,7 @@ def toidentifier(value):
             return "neginf"
         if numpy.isnan(value):
             return "nan"
-        return value.dtype.kind + "0x" + "".join(map(hex, value.tobytes()[::-1])).replace("0x", "")
+        return value.dtype.kind + "0x" + "".join(f"{b:02x}" for b in value.tobytes()[::-1])
     elif isinstance(value, numpy.complexfloating):
         return value.dtype.kind + toidentifier(value.real) + toidentifier(value.imag)
     else:
